@@ -330,7 +330,20 @@ def run(R):
                 "not identical)" % fv, scfg_.fmt_path(p) if p else None)
     # VALUE-FLOW in _send_inner
     calls = [c for c in q.calls(si.node) if q.call_name(c) in ("self._get_one_value", "self.generator.send")]
-    R.need(len(calls) == 1 and calls[0].args and isinstance(calls[0].args[0], ast.Name), "idiom: _send_inner does not advance the generator (_get_one_value / generator.send of <name>) exactly once")
+    R.need(len(calls) >= 1 and all(c.args and isinstance(c.args[0], ast.Name) for c in calls) and len(set(c.args[0].id for c in calls)) == 1
+           and len(set(q.call_name(c) for c in calls)) == 1,
+           "idiom: _send_inner does not advance the generator (_get_one_value / generator.send of <name>) through one kind of call on one variable")
+    # every advance is covered by the exhaustion handler: StopIteration leaving a generator-based task becomes RuntimeError (PEP 479), so a
+    # body that ends after an await that is not its first one would fail instead of delivering END_OF_GENERATOR
+    tries_ = [t for t in ast.walk(si.node) if isinstance(t, ast.Try) and any(
+        h.type is None or q.src(h.type).split(".")[-1] in ("StopIteration", "Exception", "BaseException") or
+        (isinstance(h.type, ast.Tuple) and any(q.src(e).split(".")[-1] == "StopIteration" for e in h.type.elts)) for h in t.handlers)]
+    for c in calls:
+        covered = any(any(x is c for st in t.body for x in ast.walk(st)) for t in tries_)
+        R.check(covered, "C17.ENDMARK", "%s:advance-covered:%s" % (si.qualname, q.stmt_key(q.enclosing_stmt(c))[:50]), R.site(si, c),
+                "this advance of the body is inside the try whose StopIteration handler delivers END_OF_GENERATOR",
+                "`%s` advances the body outside the StopIteration handler: when the body ends at this point (after a second or later await behind its "
+                "last Value) the StopIteration escapes the coroutine and surfaces as RuntimeError instead of END_OF_GENERATOR" % q.src(c)[:60])
     if q.call_name(calls[0]) == "self.generator.send":
         # the helper written out: then the exhaustion bookkeeping is _send_inner's own business
         sicfg0 = cfg_of(si)
